@@ -239,6 +239,22 @@ XFlush(C, a, all) ==
     ELSE Res(IF all THEN EmptyStore ELSE DropDb(C.S, C.db), ROk)
 
 
+\* RANDOMKEY : some key of the selected database that a reader can see (one that is live at now); the
+\* choice is read off the logged reply g (g.s: the key as the harness decoded it).  as-code: the reply is a simple string, and the empty simple
+\* string when there is no such key.
+LiveKeys(C) == {x[2] : x \in {y \in DOMAIN C.S : y[1] = C.db /\ LiveEnt(C.S[y], C.now)}}
+XRandomKey(C, a, g) ==
+    \* as-code: extra arguments are ignored (no arity check)
+    IF LiveKeys(C) = {} THEN Res(C.S, RStr(<<>>))
+    ELSE IF g.t \in {"simple", "bulk"} /\ "s" \in DOMAIN g /\ g.s \in LiveKeys(C) THEN Res(C.S, RStr(g.b))
+    ELSE Res(C.S, [t |-> "nomatch"])
+
+\* TOUCH key [key ...] : the number of the named keys a reader can see (an argument given twice counts
+\* twice); nothing in the dataset changes.  as-code: the reply is a simple string carrying the decimal count.
+XTouch(C, a) ==
+    IF Len(a) < 2 THEN Fail(C)
+    ELSE Res(C.S, RStr(Dec(Cardinality({i \in 2..Len(a) : Live(C, a[i].s)}))))
+
 \* SWAPDB a b : the two databases exchange their contents (keys, values, deadlines) - for every caller.
 \* Indices are non-negative integers (tokens of kind i); anything else is an error that changes nothing.
 \* Deviation SwapDbConnsOnly (the code): the handler renumbers the TCP connections currently on a or b and
